@@ -30,7 +30,7 @@ import (
 type F = gqlty.Finding
 
 const (
-	promptCap  = 2 * time.Second // a cancelled request must be back within this
+	promptCap  = 4 * time.Second // a cancelled request must be back within this (generous: the box may be busy)
 	slowCap    = 5 * time.Second // parse+prepare of a small input (backstop only)
 	visitCoeff = 64              // visits <= visitCoeff * size(document)
 )
@@ -403,7 +403,7 @@ func waitFor(limit time.Duration, cond func() bool) bool {
 
 // settle waits until the goroutine count is back at (or below) base.
 func settle(base int) (int, bool) {
-	ok := waitFor(1500*time.Millisecond, func() bool { return runtime.NumGoroutine() <= base })
+	ok := waitFor(3*time.Second, func() bool { return runtime.NumGoroutine() <= base })
 	return runtime.NumGoroutine(), ok
 }
 
